@@ -9,6 +9,10 @@ Extracted from the AST of the *current* source (anything else raises TranslatorE
     a conditional expression); each test is classified as the failure-count test `self.failed >= T` or a contact-time test;
     the model evaluates this generated list, so the ORDER of the tests is taken from the source
   * closest_nodes: the default of max_nodes
+  * clause-deciding guards as generated booleans that the MODEL consumes (so the theorems are re-proved against them):
+    splitGuardOwnId (every split() in RoutingTable.add is dominated by `owns(self.my_node_id)`), splitChildrenInheritCap
+    (both Bucket(...) in split get self.max_size), closestFiltersBad / closestExcludesById / closestWalkFromRoot /
+    closestSortDistanceFirst, refreshFromOwnGroup (node_maintenance generates the id from `<group>[i]`)
   * Bucket.generate_id: the one random draw that produces the suffix (getrandbits(n), randrange(2**n), randint(0, 2**n - 1),
     randint(0, 2**n), choice('01') per bit) with n = <width> - len(self.prefix_id); its range becomes `genIdDrawBound`
   * Bucket.add: the literal R of `n.rtt / node.rtt >= R` (must be integral), and that the insertion guard is
@@ -36,7 +40,7 @@ def _const_int(node, what):
 
 def _fn(body, name, what):
     for n in body:
-        if isinstance(n, ast.FunctionDef) and n.name == name:
+        if isinstance(n, (ast.FunctionDef, ast.AsyncFunctionDef)) and n.name == name:
             return n
     raise TranslatorError(f"{what}.{name} not found")
 
@@ -258,6 +262,137 @@ def extract() -> dict:
     if strict is None:
         raise TranslatorError("closest_nodes: break test `len(nodes) > max_nodes` (or >=) not found")
 
+    # ---- clause-deciding guards, read from the source as booleans that the model CONSUMES (the theorems need them true) ----
+    def mentions(e, pred):
+        return any(pred(x) for x in ast.walk(e))
+
+    def is_owns_own_id(x):
+        return (isinstance(x, ast.Call) and isinstance(x.func, ast.Attribute) and x.func.attr == "owns" and len(x.args) == 1
+                and _is_self_attr(x.args[0], "my_node_id"))
+
+    def is_split_call(x):
+        return isinstance(x, ast.Call) and isinstance(x.func, ast.Attribute) and x.func.attr == "split" and not x.args
+
+    # RoutingTable.add: every `.split()` is dominated by a test of `<bucket>.owns(self.my_node_id)`
+    radd = _fn(rt.body, "add", "RoutingTable")
+
+    def guarded(stmts, under_guard):
+        """False as soon as a split() call is reachable without a preceding/enclosing own-id test"""
+        g = under_guard
+        for st in stmts:
+            if isinstance(st, ast.If):
+                pos = mentions(st.test, is_owns_own_id) and not (isinstance(st.test, ast.UnaryOp) and isinstance(st.test.op, ast.Not))
+                neg = isinstance(st.test, ast.UnaryOp) and isinstance(st.test.op, ast.Not) and mentions(st.test.operand, is_owns_own_id)
+                if mentions(st.test, is_split_call) and not g:
+                    return False
+                if not guarded(st.body, g or pos):
+                    return False
+                if not guarded(st.orelse, g or neg):
+                    return False
+                if neg and st.body and isinstance(st.body[-1], (ast.Return, ast.Raise, ast.Break, ast.Continue)):
+                    g = True        # `if not owns(own id): return ...` guards what follows
+            elif isinstance(st, (ast.With, ast.For, ast.While, ast.Try)):
+                inner = list(st.body) + list(getattr(st, "orelse", [])) + list(getattr(st, "finalbody", []))
+                for h in getattr(st, "handlers", []):
+                    inner += h.body
+                if isinstance(st, ast.While) and mentions(st.test, is_split_call) and not g:
+                    return False
+                if not guarded(inner, g):
+                    return False
+            else:
+                if isinstance(st, ast.Assign) and isinstance(st.value, ast.Call) and is_owns_own_id(st.value):
+                    pass    # can_split = bucket.owns(own id): only recognised when tested directly; treated as unguarded
+                if mentions(st, is_split_call) and not g:
+                    return False
+        return True
+
+    if not mentions(radd, is_split_call):
+        raise TranslatorError("RoutingTable.add: no call of split() found")
+    split_guard = guarded(radd.body, False)
+
+    # Bucket.split: both children are constructed with the parent's capacity
+    kids = [c for c in ast.walk(split) if isinstance(c, ast.Call) and isinstance(c.func, ast.Name) and c.func.id == "Bucket"]
+    if len(kids) != 2:
+        raise TranslatorError("Bucket.split: expected exactly two Bucket(...) constructions")
+
+    def passes_cap(c):
+        return (len(c.args) >= 2 and _is_self_attr(c.args[1], "max_size")) or \
+            any(k.arg == "max_size" and _is_self_attr(k.value, "max_size") for k in c.keywords)
+    inherit_cap = all(passes_cap(c) for c in kids)
+
+    # closest_nodes: the filter, the range of the level walk, the sort key
+    comp_ifs = [i for c in ast.walk(cn) if isinstance(c, (ast.DictComp, ast.SetComp, ast.ListComp, ast.GeneratorExp))
+                for g_ in c.generators for i in g_.ifs]
+    all_tests = comp_ifs + [c.test for c in ast.walk(cn) if isinstance(c, ast.If)]
+
+    def is_bad_filter(x):
+        return (isinstance(x, ast.Compare) and len(x.ops) == 1 and isinstance(x.ops[0], ast.NotEq)
+                and isinstance(x.left, ast.Attribute) and x.left.attr == "status"
+                and isinstance(x.comparators[0], ast.Name) and x.comparators[0].id == "NODE_STATUS_BAD")
+
+    def is_id_exclusion(x):
+        return (isinstance(x, ast.Compare) and len(x.ops) == 1 and isinstance(x.ops[0], ast.NotEq)
+                and isinstance(x.left, ast.Attribute) and x.left.attr == "id"
+                and isinstance(x.comparators[0], ast.Attribute) and x.comparators[0].attr == "id")
+    # the same filters written as `if <...> == ...: continue` inside the collecting loop
+    def skips(c, attr, rhs_ok):
+        return (isinstance(c, ast.If) and c.body and isinstance(c.body[-1], ast.Continue) and not c.orelse and mentions(
+            c.test, lambda x: isinstance(x, ast.Compare) and len(x.ops) == 1 and isinstance(x.ops[0], ast.Eq)
+            and isinstance(x.left, ast.Attribute) and x.left.attr == attr and rhs_ok(x.comparators[0])))
+    skip_bad = any(skips(c, "status", lambda r: isinstance(r, ast.Name) and r.id == "NODE_STATUS_BAD") for c in ast.walk(cn))
+    skip_excl = any(skips(c, "id", lambda r: isinstance(r, ast.Attribute) and r.attr == "id") for c in ast.walk(cn))
+    filters_bad = skip_bad or any(mentions(t, is_bad_filter) for t in all_tests)
+    excludes_by_id = skip_excl or any(mentions(t, is_id_exclusion) for t in all_tests)
+    from_root = None
+    for c in ast.walk(cn):
+        if isinstance(c, ast.For):
+            it = c.iter
+            if isinstance(it, ast.Call) and isinstance(it.func, ast.Name) and it.func.id == "reversed" and it.args:
+                it = it.args[0]
+            if isinstance(it, ast.Call) and isinstance(it.func, ast.Name) and it.func.id == "range" \
+                    and mentions(it, lambda x: isinstance(x, ast.Name) and x.id == "prefix"):
+                if len(it.args) == 1:
+                    from_root = True
+                else:
+                    from_root = isinstance(it.args[0], ast.Constant) and it.args[0].value == 0
+    if from_root is None:
+        raise TranslatorError("closest_nodes: the loop over range(len(prefix) + 1) was not found")
+    dist_first = None
+    for c in ast.walk(cn):
+        if isinstance(c, ast.Call) and isinstance(c.func, ast.Name) and c.func.id == "sorted":
+            for k in c.keywords:
+                if k.arg == "key" and isinstance(k.value, ast.Lambda):
+                    body = k.value.body
+                    first = body.elts[0] if isinstance(body, ast.Tuple) and body.elts else body
+                    dist_first = isinstance(first, ast.Call) and (
+                        (isinstance(first.func, ast.Name) and first.func.id == "distance")
+                        or (isinstance(first.func, ast.Attribute) and first.func.attr == "distance"))
+    if dist_first is None:
+        raise TranslatorError("closest_nodes: sorted(..., key=lambda ...) not found")
+
+    # DHTCommunity.node_maintenance: the refresh id is generated from a bucket of the group that is being refreshed
+    refresh_own = None
+    try:
+        ctree = ast.parse((REPO / "ipv8/dht/community.py").read_text())
+        nm = _fn(_cls(ctree, "DHTCommunity").body, "node_maintenance", "DHTCommunity")
+    except (OSError, TranslatorError) as e:
+        raise TranslatorError(f"DHTCommunity.node_maintenance not found: {e}")
+    nm = nm if not isinstance(nm, ast.AsyncFunctionDef) else nm
+    for c in ast.walk(nm):
+        if isinstance(c, (ast.For, ast.AsyncFor)) and isinstance(c.target, ast.Name):
+            group = c.target.id
+            gens = [x for x in ast.walk(c) if isinstance(x, ast.Call) and isinstance(x.func, ast.Attribute)
+                    and x.func.attr == "generate_id"]
+            if gens:
+                recv = gens[0].func.value
+                # `<group>[<index>].generate_id()`, or a loop variable of an enclosing/earlier `for b in <group>` in this body
+                if isinstance(recv, ast.Subscript) and isinstance(recv.value, ast.Name) and recv.value.id == group:
+                    refresh_own = True
+                else:
+                    refresh_own = False
+    if refresh_own is None:
+        raise TranslatorError("DHTCommunity.node_maintenance: the generate_id() call inside the refresh loop was not found")
+
     # closest_nodes default of max_nodes
     cargs = [a.arg for a in cn.args.args]
     if "max_nodes" not in cargs:
@@ -265,7 +400,9 @@ def extract() -> dict:
     dflt = cn.args.defaults[len(cn.args.defaults) - (len(cargs) - cargs.index("max_nodes"))]
     default_k = _const_int(dflt, "closest_nodes max_nodes default")
 
-    return {"genIdDraw": gen_draw, "genIdDrawExcess": gen_excess, "statusRules": rules, "statusDefault": default, "closestDefaultK": default_k,
+    return {"splitGuardOwnId": split_guard, "splitChildrenInheritCap": inherit_cap, "closestFiltersBad": filters_bad,
+            "closestExcludesById": excludes_by_id, "closestWalkFromRoot": from_root, "closestSortDistanceFirst": dist_first,
+            "refreshFromOwnGroup": refresh_own, "genIdDraw": gen_draw, "genIdDrawExcess": gen_excess, "statusRules": rules, "statusDefault": default, "closestDefaultK": default_k,
             "maxBucketSize": consts["MAX_BUCKET_SIZE"], "idWidth": width, "statusGood": consts["NODE_STATUS_GOOD"],
             "statusUnknown": consts["NODE_STATUS_UNKNOWN"], "statusBad": consts["NODE_STATUS_BAD"],
             "badFailedThreshold": thr, "rttRatio": ratio, "closestBreakStrict": strict}
